@@ -51,6 +51,9 @@ def catalogue(features=()):
     C.append(struct([F('recmap', mode='kv', inner=LEAF(), cont='HashMap')]))
     C.append(struct([F('recmap', mode='ko', inner=LEAF(), cont='HashMap')]))
     C.append(struct([F('recmap', mode='kv', inner=LEAF2(), cont=omap)]))
+    # a recursive map whose VALUE type owns a recursive map: the nested diff of a retained key is computed through the
+    # value type's diff_ref even inside the outer OWNED diff
+    C.append(struct([F('recmap', mode='kv', inner=struct([F('plain'), F('recmap', mode='kv', inner=LEAF(), cont='HashMap')]), cont='HashMap')]))
     C.append(enum([('unit',), ('tuple', 1), ('struct', 2), ('unit',)]))
     # pairs / mixes
     C.append(struct([F('plain'), F('ordered', cont='Vec'), F('plain', skip=1), F('unord', cont='Vec')]))
